@@ -31,6 +31,7 @@ TEXT = ["rack_label", "rack_id", "rack_type", "tube_id", "liquid_class", "forced
 
 def run(ctx) -> None:
     ctx.guard("C09.registry", registry)
+    ctx.guard("C09.registry", list_overrides)
     ctx.guard("C09.slots", ad_slots)
     ctx.guard("C09.slots", r_slots)
     ctx.guard("C09.sanitise", validator_text)
@@ -44,6 +45,10 @@ def run(ctx) -> None:
     ctx.reuse("C09.max-volume", c03.step_guard_wiring)
     ctx.reuse("C09.multi-disp", c06.multi_disp)
     ctx.reuse("C09.max-volume", c06.config)
+    # every worklist class (the deprecated alias included) is configured by the arguments it was given
+    from . import c16
+
+    ctx.reuse("C09.modes", c16.override_set)
     # the tip-mask field: numbers 1-8 map to the Tecan mask values and nothing else is accepted
     from . import c10
 
@@ -295,7 +300,10 @@ def r_slots(ctx) -> None:
             names = {s.id for s in ast.walk(t) if isinstance(s, ast.Name)}
             ctx.rep.check("multi_disp" in names, rule, c, "slot carries multi_disp (possibly reduced)", f"multi_disp field carries `{show(t)[:60]}`", where=w)
         else:
-            ctx.rep.check(is_name(t, name), rule, c, f"slot carries the `{name}` argument", f"R slot `{name}` carries `{show(t)[:60]}`", where=w)
+            plain = h.spec in (None, "") and h.conversion in (-1, 115)
+            ctx.rep.check(is_name(t, name) and plain, rule, c, f"slot carries the `{name}` argument",
+                          f"R slot `{name}` carries `{show(t)[:60]}`" + (f" formatted with `:{h.spec}`: the record no longer returns the value that was supplied (e.g. `:g` keeps six significant digits and "
+                                                                         "switches to exponent notation)" if not plain else ""), where=w)
     # exclusion tail: ';' + ';'.join(map(str, sorted(list))) of the validated list, empty when nothing is excluded
     tail = [p for p in fields[-1] if isinstance(p, Hole)]
     ex = tail[-1] if len(tail) == 2 else None
@@ -315,6 +323,10 @@ def r_slots(ctx) -> None:
     joins = [v for v in vals if not isinstance(v, ast.Constant)]
     if len(empties) == 1 and len(joins) == 1:
         j = joins[0]
+        if isinstance(j, ast.JoinedStr) and len(j.values) == 2 and isinstance(j.values[0], ast.Constant) and isinstance(j.values[1], ast.FormattedValue) \
+                and j.values[1].conversion == -1 and j.values[1].format_spec is None:
+            # f";{X}" is the concatenation ";" + X (sa/inline.py reads string concatenations as f-strings)
+            j = ast.BinOp(left=j.values[0], op=ast.Add(), right=j.values[1].value)
         detail = f"exclusion tail is `{show(j)[:80]}`"
         if isinstance(j, ast.BinOp) and isinstance(j.op, ast.Add) and isinstance(j.left, ast.Constant) and j.left.value == ";" and isinstance(j.right, ast.Call) and call_fname(j.right) == "join" \
                 and isinstance(j.right.func.value, ast.Constant) and j.right.func.value.value == ";":
@@ -414,6 +426,34 @@ def validator_text(ctx) -> None:
             ctx.rep.check(got["len32"], rule, c + "/length", f"{var} longer than 32 characters raises ValueError", f"`{var}` longer than 32 characters is not rejected", where=v.where())
 
 
+def list_overrides(ctx) -> None:
+    """Records reach the worklist as they were formatted: the worklist classes do not redefine the list operations the
+    emitters use (append / extend / insert / +=) - or, if they do, they hand the record to the list unchanged."""
+    rule = "C09.registry"
+    base = ctx.prog.require_class("BaseWorklist", rule)
+    n = 0
+    for m in ctx.prog.modules.values():
+        for cls in m.classes.values():
+            if base not in ctx.prog.mro(cls):
+                continue
+            n += 1
+            for name in ("append", "extend", "insert", "__iadd__", "__setitem__", "__add__"):
+                f = cls.methods.get(name)
+                if f is None:
+                    continue
+                ctx.rep.touch(f)
+                fv = ctx.fv(f, cls)
+                c = f"{cls.name}.{name}"
+                sup = [cs for cs in fv.calls() if isinstance(cs.call.func, ast.Attribute) and cs.call.func.attr == name and isinstance(cs.call.func.value, ast.Call) and call_fname(cs.call.func.value) == "super"]
+                rec_params = [p for p in f.params[1:]]
+                unchanged = len(sup) == 1 and sup[0].call.args and all(is_name(fv.res.resolve(a, sup[0].node), p) for a, p in zip(sup[0].call.args, rec_params))
+                always = len(sup) == 1 and fv.cfg.dominates(sup[0].node, fv.cfg.exit)
+                ctx.rep.check(unchanged and always, rule, c, "the override hands its argument to the list unchanged, on every path",
+                              f"{cls.name} redefines `{name}` and stores `{show(fv.res.resolve(sup[0].call.args[-1], sup[0].node))[:50] if sup and sup[0].call.args else 'nothing'}` instead of the record it was given: "
+                              "every emitter goes through it, so fields are altered after they were validated and formatted (e.g. trailing blanks of the last field are stripped)", where=f.where())
+    ctx.rep.holds(rule, "worklist classes/list-operations", f"{n} worklist classes examined for redefined list operations")
+
+
 def accepts_valid(ctx) -> None:
     """The validator refuses nothing that is valid: it is interpreted (rules/init_model.py - our own interpreter, nothing of
     the repository is executed) for a table of valid argument sets - zero and tiny volumes, the largest accepted volume,
@@ -427,7 +467,7 @@ def accepts_valid(ctx) -> None:
     table = [dict(base)]
     for vol in (0, 0.0, 0.004, 1, 950, 7158278):
         table.append(dict(base, volume=vol))
-    for pos in (0, 1, 384):
+    for pos in (0, 1, 384, 1536, 2574):  # 26 rows x 99 columns
         table.append(dict(base, position=pos))
     for lab in ("P", "x" * 32):
         table.append(dict(base, rack_label=lab))
